@@ -46,6 +46,7 @@ Check(r) ==
                 \/ Rej(r, "the package depends on where the output directory is located (relative, nested, absolute, already holding a package)",
                        [relative |-> r.dirRelative, nested |-> r.dirNested, absolute |-> r.dirAbsolute, populated |-> r.dirPopulated]))
           /\ (r.deterministic \/ Rej(r, "two generation runs differ", [x |-> 0]))
+          /\ (r.sameDoc = "ok" \/ Rej(r, "generating again from the same parsed schema (one process, fresh generator) yields another package", [sameDoc |-> r.sameDoc]))
           /\ (r.compiled \/ Rej(r, "the generated package does not compile", [error |-> r.compileErr]))
           /\ (r.behaviourOk \/ Rej(r, "a setter does not put exactly its own field on the wire or the getter does not return it",
                                   [failures |-> r.behaviourErrs]))
